@@ -213,6 +213,13 @@ Fixpoint run_steps (rules : list Acl.rule) (rt : DnsRoute.table) (cur : list N) 
         else 0
       | _, _ => 0
       end in
+    (* C07, first sentence, on what the implementation did over TCP (where nothing is ever dropped on purpose:
+       no rate limit applies): a well-formed query (QR = 0) from a client the ACL permits got no response at all *)
+    let v7 :=
+      match d_reply s, q with
+      | None, Ok qq => if d_tcp s && granted && negb (qr qq) then 7 else 0
+      | _, _ => 0
+      end in
     let fetch' :=
       match q with
       | Ok qq =>
@@ -230,7 +237,7 @@ Fixpoint run_steps (rules : list Acl.rule) (rt : DnsRoute.table) (cur : list N) 
       let ok := opt_eqb bytes_eqb out (d_reply s) && list_eqb upq_eqb qs (d_ups s) in
       run_steps rules rt cur st'
         {| a_fetch := fetch'; a_src := src';
-           a_viol := first_nz (a_viol a) (first_nz v1 (first_nz v2 (first_nz v3 (first_nz v4 (first_nz v5 v6)))));
+           a_viol := first_nz (a_viol a) (first_nz v1 (first_nz v2 (first_nz v3 (first_nz v4 (first_nz v5 (first_nz v6 v7))))));
            a_diff := first_some (a_diff a)
                        (if ok then None else Some (i :: put_optbytes out ++ lenN qs :: flat_map (fun x : upq => [fst (fst x); if snd (fst x) then 1 else 0]) qs));
            a_hit := a_hit a || (match q with
@@ -248,7 +255,7 @@ Fixpoint run_steps (rules : list Acl.rule) (rt : DnsRoute.table) (cur : list N) 
     | _ =>
       (* the model aborts: reported as a disagreement (D01_total says it cannot) *)
       {| a_fetch := fetch'; a_src := src';
-         a_viol := first_nz (a_viol a) (first_nz v1 (first_nz v2 (first_nz v3 (first_nz v4 (first_nz v5 v6)))));
+         a_viol := first_nz (a_viol a) (first_nz v1 (first_nz v2 (first_nz v3 (first_nz v4 (first_nz v5 (first_nz v6 v7))))));
          a_diff := first_some (a_diff a) (Some [i; 99]);
          a_hit := a_hit a; a_drop := a_drop a; a_aclref := a_aclref a; a_tcp := a_tcp a; a_fwd := a_fwd a |}
     end
